@@ -116,6 +116,7 @@ type Action struct {
 	Before     []Extra
 	After      []Extra
 	PadTo      int  // >0: the reply is padded (one TXT record in the additional section) to exactly this many octets
+	ShortTo    int  // 1..11: the reply is only its first ShortTo octets - a complete frame (or datagram) that is shorter than a DNS header
 	NoQuestion bool // the reply is a bare 12-octet header (QDCOUNT=0) with the query's id, QR and - if TC is set - TC
 	Window     int  // >1: hold until Window replies are held on the connection (or WindowWait), then send them in reverse arrival order
 	WindowWait time.Duration
@@ -886,6 +887,9 @@ func (a *Action) cut(frameLen int) int {
 
 // shapeReply applies the size / shape wishes of an action to a built reply.
 func shapeReply(msg []byte, act *Action) []byte {
+	if act.ShortTo > 0 && act.ShortTo < 12 {
+		return append([]byte{}, msg[:act.ShortTo]...)
+	}
 	if act.NoQuestion {
 		h := append([]byte{}, msg[:12]...)
 		h[4], h[5], h[6], h[7], h[8], h[9], h[10], h[11] = 0, 0, 0, 0, 0, 0, 0, 0
